@@ -1,128 +1,12 @@
-// Oracles C01..C20 evaluated over the recorded history of one finished run.
-// Every oracle states an implication of the property; none demands more than the
-// property says (DESIGN.md 5.0).
-#include "run.hpp"
-
-#include <boost/asio/error.hpp>
-#include <algorithm>
-#include <cstdio>
-#include <set>
-#include <sstream>
+// Oracles part 1: C01 C02 C03 C05 C06 C07(online) C08 C14 C17, evaluated over the recorded
+// history of one finished run. Every oracle states an implication of the property; none
+// demands more than the property says (DESIGN.md 5.0).
+#include "oracle_ctx.hpp"
 
 namespace app {
 
-using namespace mq;
-using sim::SEC; using sim::MS;
-namespace asio = boost::asio;
-
-namespace {
-
-struct Ctx {
-    Sim& s;
-    std::vector<Violation> out;
-    std::string only;
-    bool hostile_run;
-
-    std::map<int, int> pub_op_by_step, sub_op_by_step, unsub_op_by_step;   // tag -> op id
-    std::map<int, std::vector<int>> pub_receipts;      // op -> RecvPkt idx (PUBLISH)
-    std::map<int, std::vector<int>> sub_receipts, unsub_receipts;
-    std::vector<std::vector<int>> recv_by_conn;
-
-    explicit Ctx(Sim& sim, const std::string& o) : s(sim), only(o), hostile_run(sim.plan.knobs.profile == "hostile") {
-        for (auto& op : s.ops) {
-            if (op.kind == OpKind::publish) pub_op_by_step[op.step_id] = op.id;
-            if (op.kind == OpKind::subscribe) sub_op_by_step[op.step_id] = op.id;
-            if (op.kind == OpKind::unsubscribe) unsub_op_by_step[op.step_id] = op.id;
-        }
-        recv_by_conn.resize(s.net.conns.size());
-        for (auto& r : s.broker.recv) {
-            if (r.conn >= 0 && r.conn < (int)recv_by_conn.size()) recv_by_conn[r.conn].push_back(r.idx);
-            if (!r.decode_err.empty()) continue;
-            if (r.pkt.type == PUBLISH) { int op = op_of_topic(r.pkt.topic); if (op >= 0) pub_receipts[op].push_back(r.idx); }
-            if (r.pkt.type == SUBSCRIBE && !r.pkt.subs.empty()) { int op = op_of_filter(r.pkt.subs[0].filter, sub_op_by_step); if (op >= 0) sub_receipts[op].push_back(r.idx); }
-            if (r.pkt.type == UNSUBSCRIBE && !r.pkt.unsubs.empty()) { int op = op_of_unsub(r.pkt.unsubs[0]); if (op >= 0) unsub_receipts[op].push_back(r.idx); }
-        }
-    }
-
-    bool want(const char* prop) const { return only.empty() || only == "all" || only == prop; }
-
-    void fail(const char* prop, const char* oracle, const std::string& detail) {
-        if (!want(prop)) return;
-        for (auto& v : out) if (v.prop == prop && v.oracle == oracle) return;   // one per class per run
-        out.push_back(Violation{prop, oracle, detail});
-    }
-
-    int op_of_topic(const std::string& t) const {
-        if (t.rfind("t/", 0) != 0) return -1;
-        int id = atoi(t.c_str() + 2);
-        auto it = pub_op_by_step.find(id);
-        return it == pub_op_by_step.end() ? -1 : it->second;
-    }
-    static int tag_of_filter(const std::string& f) {
-        size_t p = f.find("f/");
-        if (p == std::string::npos) return -1;
-        return atoi(f.c_str() + p + 2);
-    }
-    int op_of_filter(const std::string& f, const std::map<int, int>& m) const {
-        int id = tag_of_filter(f);
-        auto it = m.find(id);
-        return it == m.end() ? -1 : it->second;
-    }
-    int op_of_unsub(const std::string& f) const {
-        size_t p = f.rfind("/u");
-        if (p == std::string::npos) return -1;
-        int id = atoi(f.c_str() + p + 2);
-        auto it = unsub_op_by_step.find(id);
-        return it == unsub_op_by_step.end() ? -1 : it->second;
-    }
-
-    const Done* done(const OpRec& o) const { return o.dones.empty() ? nullptr : &o.dones[0]; }
-
-    // is a completion with operation_aborted justified by something the caller did?
-    bool abort_justified(const OpRec& o, uint64_t upto) const {
-        if (o.caller_cancelled && o.cancel_seq <= upto) return true;
-        if (!o.client_running) return true;     // initiated on a service that was not running
-        for (auto& m : s.marks) {
-            if (m.seq > upto) break;
-            switch (m.kind) {
-            case MarkKind::cancel_client: case MarkKind::disconnect_init:
-                if (m.svc_gen == o.svc_gen) return true;
-                break;
-            case MarkKind::destroy:
-                if (m.client_gen == o.client_gen) return true;
-                break;
-            case MarkKind::op_cancel:
-                if (m.arg == 1 && m.svc_gen == o.svc_gen) return true;    // terminal cancellation cancels the service
-                break;
-            default: break;
-            }
-        }
-        return false;
-    }
-
-    bool is_transport_ec(const error_code& ec) const {
-        if (!ec) return false;
-        std::string cat = ec.category().name();
-        return cat != "mqtt_client_error";
-    }
-
-    std::string opstr(const OpRec& o) const {
-        std::ostringstream ss;
-        const char* k[] = {"run", "publish", "subscribe", "unsubscribe", "receive", "disconnect"};
-        ss << "op#" << o.id << "(" << k[(int)o.kind];
-        if (o.kind == OpKind::publish) ss << " q" << o.qos << " step " << o.step_id;
-        ss << " init@" << o.init_seq << ")";
-        return ss.str();
-    }
-
-    bool conn_hostile(int conn) const { auto* c = s.broker.bc(conn); return c && c->hostile_touched; }
-    bool any_hostile_between(uint64_t a, uint64_t b) const {
-        for (auto& sp : s.broker.sent) if (sp.hostile && sp.seq >= a && sp.seq <= b) return true;
-        return false;
-    }
-
     // ------------------------------------------------------------------ C05
-    void c05() {
+void Ctx::c05() {
         for (auto& o : s.ops) {
             if (o.dones.size() > 1)
                 fail("C05", "completed_twice", opstr(o) + " completion handler invoked " + std::to_string(o.dones.size()) + " times");
@@ -177,7 +61,7 @@ struct Ctx {
     }
 
     // ------------------------------------------------------------------ C02
-    void c02() {
+void Ctx::c02() {
         for (auto& o : s.ops) {
             bool tracked = (o.kind == OpKind::publish && o.qos > 0) || o.kind == OpKind::subscribe || o.kind == OpKind::unsubscribe;
             if (!tracked) continue;
@@ -283,11 +167,11 @@ struct Ctx {
     }
 
     // ------------------------------------------------------------------ C01
-    bool pub_matches(const OpRec& o, const Packet& p) const {
+bool Ctx::pub_matches(const OpRec& o, const Packet& p) const {
         return p.topic == o.topic && p.payload == o.payload && p.qos == o.qos && p.retain == o.retain && props_equal(p.props, o.props);
     }
 
-    void c01() {
+void Ctx::c01() {
         for (auto& o : s.ops) {
             if (o.kind != OpKind::publish || o.qos == 0) continue;
             const Done* d = done(o);
@@ -338,7 +222,7 @@ struct Ctx {
     }
 
     // ------------------------------------------------------------------ C14
-    void c14() {
+void Ctx::c14() {
         for (auto& o : s.ops) {
             if (o.kind != OpKind::subscribe && o.kind != OpKind::unsubscribe) continue;
             const Done* d = done(o);
@@ -376,7 +260,7 @@ struct Ctx {
     }
 
     // ------------------------------------------------------------------ C03
-    void c03() {
+void Ctx::c03() {
         for (auto& [opid, rs] : pub_receipts) {
             auto& o = s.ops[opid];
             if (o.qos == 0 || rs.empty()) continue;
@@ -430,7 +314,7 @@ struct Ctx {
     }
 
     // ------------------------------------------------------------------ C06
-    void c06() {
+void Ctx::c06() {
         for (size_t ci = 0; ci < recv_by_conn.size(); ++ci) {
             auto* bc = s.broker.bc((int)ci);
             if (!bc || bc->connack_sent_idx < 0) continue;
@@ -452,7 +336,7 @@ struct Ctx {
     }
 
     // ------------------------------------------------------------------ C07 / online broker observations
-    void online() {
+void Ctx::online() {
         for (auto& v : s.broker.violations_online) {
             auto p1 = v.find('|');
             if (p1 == std::string::npos) { fail("C17", "framing", v); continue; }
@@ -464,7 +348,7 @@ struct Ctx {
     }
 
     // ------------------------------------------------------------------ C08
-    void c08() {
+void Ctx::c08() {
         struct Hold { int op; uint64_t from; };
         std::map<uint16_t, std::vector<Hold>> holders;
         auto opdone = [&](int op) -> uint64_t { auto& o = s.ops[op]; return o.dones.empty() ? UINT64_MAX : o.dones[0].seq; };
@@ -505,7 +389,7 @@ struct Ctx {
     }
 
     // ------------------------------------------------------------------ C17 (wire well-formedness + says what was asked)
-    void c17() {
+void Ctx::c17() {
         for (auto& r : s.broker.recv) {
             if (!r.decode_err.empty()) {
                 fail("C17", "malformed_packet_emitted", "conn " + std::to_string(r.conn) + " seq " + std::to_string(r.seq) + ": " + r.decode_err + " raw " + hex(r.pkt.raw, 64));
@@ -529,14 +413,14 @@ struct Ctx {
             }
         }
     }
-};
 
-} // namespace
 
 std::vector<Violation> check_all(Sim& s, const std::string& only) {
     Ctx c(s, only);
     c.online();
     c.c05(); c.c02(); c.c01(); c.c14(); c.c03(); c.c06(); c.c08(); c.c17();
+    c.c04(); c.c10(); c.c11(); c.c12(); c.c13();
+    c.c09(); c.c15(); c.c18(); c.c19();
     if (s.livelock) c.fail("C19", "livelock", "more than 200000 handler steps at one virtual instant");
     return c.out;
 }
